@@ -239,19 +239,20 @@ func handlePayload(h *Handler, errResp errorResponder, p dataPayload, e xmlstrea
 		return err
 	}
 	var inputErr base64.CorruptInputError
-	dataLen := base64.StdEncoding.DecodedLen(len(p.Data))
+	// Decode into scratch space first: a refused packet must leave neither
+	// partial data in the read buffer nor a gap in the sequence numbers.
+	decoded, err := io.ReadAll(base64.NewDecoder(base64.StdEncoding, bytes.NewReader(p.Data)))
 	// If this would cause the buffer to grow beyond the maximum size, send back
-	// an error.
-	if conn.maxBufSize > 0 && conn.readBuf.Len()+dataLen > conn.maxBufSize {
+	// an error. What counts is the data the packet carries: the length
+	// base64.DecodedLen derives from the text includes the padding, and a final
+	// packet of one or two bytes that exactly fits would be refused.
+	if err == nil && conn.maxBufSize > 0 && conn.readBuf.Len()+len(decoded) > conn.maxBufSize {
 		_, err := xmlstream.Copy(e, errResp.Error(stanza.Error{
 			Type:      stanza.Wait,
 			Condition: stanza.ResourceConstraint,
 		}))
 		return err
 	}
-	// Decode into scratch space first: a refused packet must leave neither
-	// partial data in the read buffer nor a gap in the sequence numbers.
-	decoded, err := io.ReadAll(base64.NewDecoder(base64.StdEncoding, bytes.NewReader(p.Data)))
 	// Data that ends in the middle of a base64 group is reported as an
 	// unexpected EOF, not as corrupt input: it is just as undecodable, and no
 	// reason to end the session.
